@@ -150,6 +150,10 @@ func Run(r *corr.Run) {
 		treeUntil = time.Now()
 	}
 	resetCorrState()
+	focusProp, otherCount = "", 0
+	if focus == "C06" || focus == "C09" {
+		focusProp = focus
+	}
 	for k := 0; time.Now().Before(treeUntil) && k < r.Pick(6000, 200000); k++ {
 		treeLevelCase(r)
 		if violations(r) >= 3 {
